@@ -1153,9 +1153,9 @@ func (c *ChannelWriter) mapDBAndCollectionName(db, collection string) (string, s
 			returnDB, returnCollection = util.GetCollectionNameFromFull(target)
 			return false
 		}
+		// a collection-level entry takes precedence over a whole-database entry, whatever the iteration order
 		if sourceDB == db && (sourceCollection == "*" || collection == "") {
 			returnDB, _ = util.GetCollectionNameFromFull(target)
-			return false
 		}
 		return true
 	})
